@@ -19,6 +19,7 @@ fn main() {
         "run" => {
             if a.len() < 5 { usage(); }
             let o = parent::RunOpts {
+                strace: std::env::var("ABYVERIF_STRACE").is_ok(),
                 root: a[2].clone(),
                 script: a[3].clone(),
                 trace: a[4].clone(),
